@@ -9,7 +9,9 @@ MODULES = ["Prelude", "C16_Model", "C16_Spec", "C16_Check"]
 PROPS_MODULE = "C16_Properties"
 THEOREMS = ["C16_total", "C16_sound", "C16_rejects", "C16_rejects_unparseable_url", "C16_rejects_mixed_schemes",
             "C16_rejects_unusable_pem", "C16_rejects_unknown_reference", "C16_rejects_bad_flowcontrol",
-            "C16_model_meets_spec", "C16_sound_refuted_without_insecure_ca_check"]
+            "C16_model_meets_spec", "C16_sound_refuted_without_insecure_ca_check",
+            "C16_sound_update", "C16_sound_remote", "C16_remote_refuted_without_stale_remote_fix",
+            "C16_remote_refuted_without_stale_status_fix", "C16_remote_refuted_without_no_limiter_fix"]
 EVAL = "C16_Check.eval_x"
 CLAUSES = ["agree", "total", "sound", "rejects", "sound_update", "sound_remote"]
 COQ_SHARD = 300
@@ -26,10 +28,16 @@ TRUSTED_BASE = [
     "modelled not verified: client-go TLSConfigFor / rest.TransportFor, golib maxinflight, x/time/rate, sync.Map, goset",
 ]
 ASSUMPTIONS = [
+    "updates: object 2 is applied on a ClusterInfo / controller / limiter that applied object 1 of the same name; "
+    "the rest config built from object 1 is kept by the code (clientConfig changes do not reach existing or new "
+    "endpoints) - that is a functional matter outside this property and is mirrored by the model",
+    "remote rate limiter: rounds are played step by step in one process against the real limiter object (gateway A on "
+    "every version after the limiter's handler saw it, replica B on the last version); the limiter and the gateway see "
+    "the same version during a round; SetLimit / acquire traffic between rounds is not played",
     "'passes validation' = the admission plugin's Validate (ValidateUpstreamCluster + feature-gate annotation), with no "
     "other cluster registered (server-name conflicts with other clusters are outside this property)",
-    "gateway apply = CreateClusterInfo / controller sync of a fresh cluster with the local rate limiter; updates of an "
-    "existing ClusterInfo and the remote-limiter reconcile loop are not covered",
+    "gateway apply = CreateClusterInfo / controller sync of a fresh cluster with the local rate limiter, the update of "
+    "an existing one, and the reconcile steps of the remote rate limiter",
     "limiter apply = UpstreamConditionHandler as shard leader with the local store",
     "for objects with mixed schemes the real validation picks the scheme from a Go map (schemes.PopAny): the model "
     "accepts either choice for the error LIST; emptiness of the list does not depend on it",
@@ -675,6 +683,6 @@ LEVEL_TEXT = ("full proof over abstracted object facts: Coq theorems over every 
               "generated objects per run")
 LEVEL_NOTE = ("trusted: Coq kernel + vm_compute, the hand-written model (tied by differential run only), Go harness and "
               "exports, the oracle laws (checked per case); modelled not verified: net/url, crypto/tls, client-go "
-              "transport/rest, featuregate, metadata validation; not covered: updates of an existing ClusterInfo, remote "
-              "limiter reconcile, API-backed limiter store; no axioms")
+              "transport/rest, featuregate, metadata validation, the quota arithmetic of the limiter (C07); not covered: "
+              "acquire/SetLimit traffic, version skew between gateway and limiter, API-backed limiter store; no axioms")
 TECHNIQUE = "Coq proof (case analysis + induction over schema/endpoint/policy lists) + differential model/implementation correspondence"
